@@ -1748,11 +1748,15 @@ func (c *Ctx) errorTestedFirst(rule string, floor int, rels ...string) {
 				}
 				for i := 0; i+1 < len(blk.List); i++ {
 					as, ok := blk.List[i].(*ast.AssignStmt)
-					if !ok || len(as.Rhs) != 1 || len(as.Lhs) < 2 {
+					if !ok || len(as.Rhs) != 1 || len(as.Lhs) < 1 {
 						continue
 					}
-					if _, isCall := ast.Unparen(as.Rhs[0]).(*ast.CallExpr); !isCall {
+					fcall, isCall := ast.Unparen(as.Rhs[0]).(*ast.CallExpr)
+					if !isCall {
 						continue
+					}
+					if nm := calleeName(info, fcall); nm == "fmt.Errorf" || strings.HasPrefix(nm, "errors.") {
+						continue // makes an error value, cannot fail
 					}
 					eid, ok := as.Lhs[len(as.Lhs)-1].(*ast.Ident)
 					if !ok {
